@@ -223,6 +223,10 @@ pub struct MemFault {
 const BAND: usize = 32;
 const CANARY8: u8 = 0xC9;
 const CANARY16: u16 = 0xC9C9;
+const SRC_BEFORE8: u8 = 0xE4;
+const SRC_AFTER8: u8 = 0xBF;
+const SRC_BEFORE16: u16 = 0xD800;
+const SRC_AFTER16: u16 = 0xDC00;
 
 /// reference result: (return values, expected written prefix as bytes or units)
 pub struct MemRef {
@@ -366,6 +370,11 @@ pub struct MemRunner {
     d8: Vec<u8>,
     d16: Vec<u16>,
     pub exact_alloc: bool,
+    /// guard-page mode for cases with an odd `src_align` (see guard.rs; used by C06)
+    pub guard: bool,
+    g_s8: Option<crate::guard::GuardRegion>,
+    g_s16: Option<crate::guard::GuardRegion>,
+    g_d: Option<crate::guard::GuardRegion>,
 }
 
 pub struct RunResult {
@@ -378,7 +387,7 @@ pub struct RunResult {
 
 impl MemRunner {
     pub fn new() -> MemRunner {
-        MemRunner { s8: vec![], s16: vec![], d8: vec![], d16: vec![], exact_alloc: false }
+        MemRunner { s8: vec![], s16: vec![], d8: vec![], d16: vec![], exact_alloc: false, guard: crate::guard::enabled(), g_s8: None, g_s16: None, g_d: None }
     }
 
     /// Run one case (preconditions must already hold - see `sanitise`) with guard bands.
@@ -393,12 +402,16 @@ impl MemRunner {
             self.s8 = Vec::with_capacity(so + c.src8.len());
             self.s16 = Vec::with_capacity(so + c.src16.len());
         }
+        // source sentinels: a high surrogate / lead byte before, low surrogates / continuation bytes
+        // after, so that a read outside the source would change the result
         self.s8.clear();
-        self.s8.resize(so + c.src8.len() + band, CANARY8);
-        self.s8[so..so + c.src8.len()].copy_from_slice(&c.src8);
+        self.s8.resize(so, SRC_BEFORE8);
+        self.s8.extend_from_slice(&c.src8);
+        self.s8.resize(so + c.src8.len() + band, SRC_AFTER8);
         self.s16.clear();
-        self.s16.resize(so + c.src16.len() + band, CANARY16);
-        self.s16[so..so + c.src16.len()].copy_from_slice(&c.src16);
+        self.s16.resize(so, SRC_BEFORE16);
+        self.s16.extend_from_slice(&c.src16);
+        self.s16.resize(so + c.src16.len() + band, SRC_AFTER16);
         // destinations
         let dl = c.dst_len;
         let f16 = (c.fill as u16) << 8 | c.fill as u16;
@@ -433,33 +446,65 @@ impl MemRunner {
             }
         }
         let before8: Vec<u8> = if !f.dst_is_u16() && !f.no_dst() && !f.dst_is_str() { self.d8[dof..dof + dl].to_vec() } else { vec![] };
-        let s8 = &self.s8[so..so + c.src8.len()];
-        let (s16_pre, s16_rest) = self.s16.split_at_mut(so);
-        let _ = s16_pre;
-        let s16m = &mut s16_rest[..c.src16.len()];
-        let d8 = &mut self.d8;
-        let d16 = &mut self.d16;
+        crate::guard::set_current(c as *const MemCase as *const (), render_mem_case);
+        let use_guard = self.guard && (c.src_align & 1 == 1) && c.src8.len() <= 16384 && c.src16.len() <= 8192 && dl <= 8192;
+        let uses_d16 = f.dst_is_u16() && f != MemFn::EnsureUtf16Validity;
+        let uses_d8 = !f.no_dst() && !f.dst_is_u16() && !f.dst_is_str();
+        let s8: &[u8] = if use_guard {
+            let g = self.g_s8.get_or_insert_with(|| crate::guard::GuardRegion::new(16));
+            let sl = if c.src_align & 2 == 0 { g.end_u8(c.src8.len()) } else { g.start_u8(c.src8.len()) };
+            sl.copy_from_slice(&c.src8);
+            sl
+        } else {
+            &self.s8[so..so + c.src8.len()]
+        };
+        let s16m: &mut [u16] = if use_guard {
+            let g = self.g_s16.get_or_insert_with(|| crate::guard::GuardRegion::new(16));
+            let sl = if c.src_align & 2 == 0 { g.end_u16(c.src16.len()) } else { g.start_u16(c.src16.len()) };
+            sl.copy_from_slice(&c.src16);
+            sl
+        } else {
+            &mut self.s16[so..so + c.src16.len()]
+        };
+        let (d8s, d16s): (&mut [u8], &mut [u16]) = if use_guard && (uses_d8 || uses_d16) {
+            let g = self.g_d.get_or_insert_with(|| crate::guard::GuardRegion::new(16));
+            if uses_d8 {
+                let sl = g.end_u8(dl);
+                for x in sl.iter_mut() {
+                    *x = c.fill;
+                }
+                (sl, &mut [])
+            } else {
+                let sl = g.end_u16(dl);
+                for x in sl.iter_mut() {
+                    *x = f16;
+                }
+                (&mut [], sl)
+            }
+        } else {
+            (if uses_d8 { &mut self.d8[dof..dof + dl] } else { &mut [] }, if uses_d16 { &mut self.d16[dof..dof + dl] } else { &mut [] })
+        };
         let mut borrowed: Option<bool> = None;
         let mut cow_out: Option<Vec<u8>> = None;
         let r: Result<(Vec<i64>, usize), String> = catch(|| match f {
             MemFn::Utf8ToUtf16 => {
-                let w = mem::convert_utf8_to_utf16(s8, &mut d16[dof..dof + dl]);
+                let w = mem::convert_utf8_to_utf16(s8, &mut *d16s);
                 (vec![w as i64], w)
             }
             MemFn::StrToUtf16 => {
-                let w = mem::convert_str_to_utf16(std::str::from_utf8(s8).unwrap(), &mut d16[dof..dof + dl]);
+                let w = mem::convert_str_to_utf16(std::str::from_utf8(s8).unwrap(), &mut *d16s);
                 (vec![w as i64], w)
             }
-            MemFn::Utf8ToUtf16WithoutReplacement => match mem::convert_utf8_to_utf16_without_replacement(s8, &mut d16[dof..dof + dl]) {
+            MemFn::Utf8ToUtf16WithoutReplacement => match mem::convert_utf8_to_utf16_without_replacement(s8, &mut *d16s) {
                 Some(w) => (vec![w as i64], w),
                 None => (vec![-1], 0),
             },
             MemFn::Utf16ToUtf8Partial => {
-                let (rd, w) = mem::convert_utf16_to_utf8_partial(s16m, &mut d8[dof..dof + dl]);
+                let (rd, w) = mem::convert_utf16_to_utf8_partial(s16m, &mut *d8s);
                 (vec![rd as i64, w as i64], w)
             }
             MemFn::Utf16ToUtf8 => {
-                let w = mem::convert_utf16_to_utf8(s16m, &mut d8[dof..dof + dl]);
+                let w = mem::convert_utf16_to_utf8(s16m, &mut *d8s);
                 (vec![w as i64], w)
             }
             MemFn::Utf16ToStrPartial => {
@@ -473,15 +518,15 @@ impl MemRunner {
                 (vec![w as i64], w)
             }
             MemFn::Latin1ToUtf16 => {
-                mem::convert_latin1_to_utf16(s8, &mut d16[dof..dof + dl]);
+                mem::convert_latin1_to_utf16(s8, &mut *d16s);
                 (vec![], s8.len())
             }
             MemFn::Latin1ToUtf8Partial => {
-                let (rd, w) = mem::convert_latin1_to_utf8_partial(s8, &mut d8[dof..dof + dl]);
+                let (rd, w) = mem::convert_latin1_to_utf8_partial(s8, &mut *d8s);
                 (vec![rd as i64, w as i64], w)
             }
             MemFn::Latin1ToUtf8 => {
-                let w = mem::convert_latin1_to_utf8(s8, &mut d8[dof..dof + dl]);
+                let w = mem::convert_latin1_to_utf8(s8, &mut *d8s);
                 (vec![w as i64], w)
             }
             MemFn::Latin1ToStrPartial => {
@@ -495,11 +540,11 @@ impl MemRunner {
                 (vec![w as i64], w)
             }
             MemFn::Utf8ToLatin1Lossy => {
-                let w = mem::convert_utf8_to_latin1_lossy(s8, &mut d8[dof..dof + dl]);
+                let w = mem::convert_utf8_to_latin1_lossy(s8, &mut *d8s);
                 (vec![w as i64], w)
             }
             MemFn::Utf16ToLatin1Lossy => {
-                mem::convert_utf16_to_latin1_lossy(s16m, &mut d8[dof..dof + dl]);
+                mem::convert_utf16_to_latin1_lossy(s16m, &mut *d8s);
                 (vec![], s16m.len())
             }
             MemFn::DecodeLatin1 => {
@@ -533,18 +578,34 @@ impl MemRunner {
                 (vec![], s16m.len())
             }
             MemFn::CopyAsciiToAscii => {
-                let w = mem::copy_ascii_to_ascii(s8, &mut d8[dof..dof + dl]);
+                let w = mem::copy_ascii_to_ascii(s8, &mut *d8s);
                 (vec![w as i64], w)
             }
             MemFn::CopyAsciiToBasicLatin => {
-                let w = mem::copy_ascii_to_basic_latin(s8, &mut d16[dof..dof + dl]);
+                let w = mem::copy_ascii_to_basic_latin(s8, &mut *d16s);
                 (vec![w as i64], w)
             }
             MemFn::CopyBasicLatinToAscii => {
-                let w = mem::copy_basic_latin_to_ascii(s16m, &mut d8[dof..dof + dl]);
+                let w = mem::copy_basic_latin_to_ascii(s16m, &mut *d8s);
                 (vec![w as i64], w)
             }
         });
+        crate::guard::clear_current();
+        if use_guard {
+            // copy back so that the common post-processing below applies unchanged
+            if uses_d8 {
+                let v = d8s.to_vec();
+                self.d8[dof..dof + dl].copy_from_slice(&v);
+            }
+            if uses_d16 {
+                let v = d16s.to_vec();
+                self.d16[dof..dof + dl].copy_from_slice(&v);
+            }
+            let v8 = s8.to_vec();
+            let v16 = s16m.to_vec();
+            self.s8[so..so + c.src8.len()].copy_from_slice(&v8);
+            self.s16[so..so + c.src16.len()].copy_from_slice(&v16);
+        }
         // whole-str validity and canaries, also after a panic
         let mut full8: Vec<u8> = Vec::new();
         if let Some(s) = &str_dst {
@@ -567,10 +628,10 @@ impl MemRunner {
             full8 = self.d8[dof..dof + dl].to_vec();
         }
         // sources unchanged (ensure_utf16_validity mutates in place by design)
-        if &self.s8[so..so + c.src8.len()] != &c.src8[..] || self.s8[..so].iter().any(|x| *x != CANARY8) || self.s8[so + c.src8.len()..].iter().any(|x| *x != CANARY8) {
+        if &self.s8[so..so + c.src8.len()] != &c.src8[..] || self.s8[..so].iter().any(|x| *x != SRC_BEFORE8) || self.s8[so + c.src8.len()..].iter().any(|x| *x != SRC_AFTER8) {
             faults.push(MemFault { prop: "C06", sig: format!("C06:mem:{}:src-modified", f.name()), msg: "source bytes (or their surroundings) were modified".into() });
         }
-        if self.s16[..so].iter().any(|x| *x != CANARY16) || self.s16[so + c.src16.len()..].iter().any(|x| *x != CANARY16) || (f != MemFn::EnsureUtf16Validity && &self.s16[so..so + c.src16.len()] != &c.src16[..]) {
+        if self.s16[..so].iter().any(|x| *x != SRC_BEFORE16) || self.s16[so + c.src16.len()..].iter().any(|x| *x != SRC_AFTER16) || (f != MemFn::EnsureUtf16Validity && &self.s16[so..so + c.src16.len()] != &c.src16[..]) {
             faults.push(MemFault { prop: "C06", sig: format!("C06:mem:{}:src-modified", f.name()), msg: "source code units (or their surroundings) were modified".into() });
         }
         let (ret, written) = match r {
@@ -613,6 +674,11 @@ impl MemRunner {
         }
         RunResult { out: Some(out), panic: None, faults, full8 }
     }
+}
+
+fn render_mem_case(p: *const ()) -> String {
+    let c = unsafe { &*(p as *const MemCase) };
+    c.to_json().to_string()
 }
 
 /// Run a case and evaluate all monitors; returns faults tagged with the property they belong to.
